@@ -435,13 +435,13 @@ class Ranges(Sub):
 # setter protocol (K1: every sequence of setter calls)
 
 SETVALS = [None, 0, False, '', 0.0, [], 5, 'x']
-KINDS = ('cell', 'range', 'var', 'var-unset', 'fn')
+KINDS = ('cell', 'range', 'var', 'var-unset', 'fn', 'fn-unset')
 
 
 class Setter(Sub):
     name = 'c10.setter'
     rule = ('every sequence of <= 3 setter calls over {None,0,FALSE,"",0.0,[],5,"x"}, issued by one listener or split over '
-            'two listeners, for each event kind (cell, range, set variable, unset variable, function) and with no listener '
+            'two listeners, for each event kind (cell, range, set variable, unset variable, function, unknown function) and with no listener '
             'at all: the value of the reference is the last non-None argument, else the default (blank / the variable / '
             '#NAME? / the function result); non-trivial = sequence containing a falsy non-None value')
     min_cases = 500
@@ -463,9 +463,9 @@ class Setter(Sub):
         vals = [SETVALS[i] for i in seq]
         p = env.new_parser()
         event = {'cell': 'callCellValue', 'range': 'callRangeValue', 'var': 'callVariable', 'var-unset': 'callVariable',
-                 'fn': 'callFunction'}[kind]
-        text = {'cell': 'B7', 'range': 'B7:C9', 'var': 'myvar', 'var-unset': 'myvar', 'fn': 'MYFN(1)'}[kind]
-        default = {'cell': None, 'range': None, 'var': 'dflt', 'var-unset': '#NAME?', 'fn': 'fnres'}[kind]
+                 'fn': 'callFunction', 'fn-unset': 'callFunction'}[kind]
+        text = {'cell': 'B7', 'range': 'B7:C9', 'var': 'myvar', 'var-unset': 'myvar', 'fn': 'MYFN(1)', 'fn-unset': 'MYFN(1)'}[kind]
+        default = {'cell': None, 'range': None, 'var': 'dflt', 'var-unset': '#NAME?', 'fn': 'fnres', 'fn-unset': '#NAME?'}[kind]
         if kind == 'var':
             p.set_variable('myvar', 'dflt')
         if kind == 'fn':
